@@ -327,6 +327,19 @@ class CaseSpec:
 class NodeSpec(CaseSpec):
     cls = "D"
 
+    def correspondence(self, prop, tier, rng, workdir, pr, violations):
+        cov = CaseSpec.correspondence(self, prop, tier, rng, workdir, pr, violations)
+        if tier == "thorough":
+            import xcheck
+            sample = [c for c in self.cases("quick", random.Random(7)) if c.tags.get("kind") == "history"][:60]
+            sample += [c for c in self.cases("quick", random.Random(7)) if c.tags.get("kind") == "state-op"][::97]
+            n, mism = xcheck.run(sample, os.path.join(workdir, "xcheck"))
+            cov["extraction_crosscheck"] = dict(histories_evaluated_by_vm_compute_and_by_extracted_code=n, mismatches=len(mism))
+            if mism:
+                rp = write_replay(prop, dict(kind="extraction-mismatch", first=str(mism[0]), broken="extracted OCaml model and vm_compute inside Coq differ"))
+                violations.append((rp, "no-failing-input-found"))
+        return cov
+
     def cases(self, tier, rng):
         if tier == "thorough":
             ex = nc.gen_exhaustive(self.cls, 3, 4) + nc.gen_exhaustive(self.cls, 2, 5, prefix="y")
